@@ -267,6 +267,24 @@ func (c *Conn) SendRaw(b []byte) error {
 // Close closes the socket abruptly.
 func (c *Conn) Close() { c.c.Close() }
 
+// NoteSent records a packet that leaves inside a raw write (ground truth for the statistics checks).
+func (c *Conn) NoteSent(typ byte, n int, qos byte) {
+	c.mu.Lock()
+	c.sent = append(c.sent, SentRec{Type: typ, Bytes: n, Qos: qos})
+	c.mu.Unlock()
+}
+
+// SendRawThenClose hands b and the end of the stream to the broker at once (see memnet.Client.WriteThenEOF).
+func (c *Conn) SendRawThenClose(b []byte) error {
+	if w, ok := c.c.(interface{ WriteThenEOF([]byte) error }); ok {
+		return w.WriteThenEOF(b)
+	}
+	c.c.SetWriteDeadline(time.Now().Add(3 * time.Second))
+	_, err := c.c.Write(b)
+	c.Close()
+	return err
+}
+
 // Take returns the packets received since the previous Take, and whether EOF was newly observed.
 func (c *Conn) Take() (ps []*mqttcli.Packet, eof bool) {
 	c.mu.Lock()
